@@ -37,10 +37,16 @@ impl SO2State {
         }
     }
 
-    /// Wraps an angle into `[-PI, PI)`. `rem_euclid` may round up to the modulus itself for
+    /// Wraps an angle into `[-PI, PI)`; angles already in that range are returned unchanged.
+    /// `rem_euclid` may round up to the modulus itself for
     /// inputs a rounding error below a multiple of it (e.g. just below `-PI`), which would yield
     /// `+PI`; that case is mapped to the equivalent `-PI` so that wrapping is idempotent.
     fn wrap(val: f64) -> f64 {
+        // Already canonical: returned bit for bit (adding and subtracting PI would perturb the
+        // last bits, so that e.g. a bound of an interval no longer compares equal to itself).
+        if (-PI..PI).contains(&val) {
+            return val;
+        }
         let shifted = (val + PI).rem_euclid(2.0 * PI);
         if shifted >= 2.0 * PI {
             -PI
